@@ -85,7 +85,10 @@ class IsoDateString(StringSerializable, date):
     def to_internal_value(cls, value: str) -> 'IsoDateString':
         if not is_date(value):
             raise ValueError(f"'{value}' is not valid date")
-        dt = dateutil.parser.isoparse(value)
+        try:
+            dt = dateutil.parser.isoparse(value)
+        except ArithmeticError as e:
+            raise ValueError(str(e)) from e
         return extend_datetime(dt.date(), cls)
 
     def to_representation(self):
@@ -127,7 +130,11 @@ class IsoDatetimeString(StringSerializable, datetime):
 
     @classmethod
     def to_internal_value(cls, value: str) -> 'IsoDatetimeString':
-        dt = dateutil.parser.isoparse(value)
+        try:
+            dt = dateutil.parser.isoparse(value)
+        except ArithmeticError as e:
+            # i.e. "9999-12-31T24:00" is one day after datetime.max
+            raise ValueError(str(e)) from e
         return extend_datetime(dt, cls)
 
     def to_representation(self):
